@@ -74,8 +74,8 @@ def blocks(tier, seed):
     for d in (1, 2, 3):
         for cname in ("SphericalDroplet", "DiffuseDroplet"):
             out.append({"kind": "pair", "dim": d, "cls": cname, "phase": seed % 4})
-    n = 4 if tier == "thorough" else 3
     for d in (1, 2, 3):
+        n = 4 if (tier == "thorough" or d == 1) else 3
         for cname in ("SphericalDroplet", "DiffuseDroplet"):
             out.append({"kind": "group", "dim": d, "cls": cname, "n": n, "phase": seed % 4})
     return out
@@ -193,6 +193,12 @@ def run_case(case, ctx):
         ctx.op()
         ctx.check("C11.paths-agree", same(c2, m, ulp=4), {"path": "numba", "got": arr(c2), "want": arr(m)})
         ctx.check("C11.operands-unmodified", same(a, a0) and same(b, b0), {"path": "after all"})
+        # results of separate out-of-place merges are independent objects
+        snap = arr(m)
+        other = a.merge(a)
+        ctx.op()
+        ctx.check("C11.result-independent", other.data is not m.data and bool(np.array_equal(arr(m), snap, equal_nan=True)) and not np.shares_memory(np.asarray(other.data), np.asarray(m.data)),
+                  {"before": snap, "after": arr(m)})
         if r1 > 0 and r2 > 0 and p1 != p2:
             ctx.count("both-positive-distinct")
         if r1 == 0 or r2 == 0:
@@ -225,5 +231,5 @@ def run_case(case, ctx):
 
 
 def expected_positive(tier):
-    return ["C11.volume", "C11.com", "C11.width-mean", "C11.commutes", "C11.paths-agree", "C11.grouping", "C11.operands-unmodified",
+    return ["C11.volume", "C11.com", "C11.width-mean", "C11.commutes", "C11.paths-agree", "C11.grouping", "C11.operands-unmodified", "C11.result-independent",
             "both-positive-distinct", "zero-radius-operand"]
